@@ -11,13 +11,17 @@ import itertools
 from ..framework import lean_driver, chash
 
 PROP = "C09"
-LEAN_TARGETS = ["Eliot.Properties.C09"]
+LEAN_TARGETS = ["Eliot.Properties.C09", "Eliot.Properties.C09Flat"]
 AUDIT = "Eliot/Audit/C09.lean"
 THEOREMS = [
     "PM.Tree.step", "PM.Tree.stepC", "PM.Task.add_step", "PM.Parser.add_step",
     "PM.C09.feed_ok", "PM.C09.subset_no_error", "PM.C09.parse_perm_invariant",
     "PM.C09.complete_iff_all_arrived", "PM.C09.never_early", "PM.C09.yield_exactly_once",
     "PM.C09.reconstruct",
+    # the flat `_nodes` map and upward walk of parse.py (Model/ParseFlat.lean) refines the trie
+    "PM.upward_seg", "PM.add_refines", "PM.C09Flat.flat_refines_trie", "PM.C09Flat.flat_sequence_refines_trie",
+    "PM.C09Flat.flat_root_and_complete", "PM.C09Flat.spec_stream_in_domain", "PM.C09Flat.flat_single_message_task",
+    "PM.C09Flat.flat_follows_spec",
 ]
 RULE = ("histories = permutations / sub-multisets / task interleavings of the messages of generated well-formed forests "
         "(1-4 tasks, depth <= 4 quick / 6 thorough, nested actions standing for remote sub-tasks too), plus a malformed stream "
@@ -142,6 +146,14 @@ def dump_task(t, sync):
     return d
 
 
+def flat_dump(t):
+    """every `_nodes` entry and `_completed` of a real Task, as Driver/C09's `ftaskJ` prints the flat model's"""
+    if not hasattr(t, "_nodes"):
+        return {"not-a-task": repr(t)[:80]}
+    return {"nodes": [[k, dump_node(v)] for k, v in sorted(((k.as_list(), v) for k, v in t._nodes.items()), key=lambda kv: kv[0])],
+            "completed": sorted(l.as_list() for l in t._completed)}
+
+
 def run_real(msgs, sync=True):
     from eliot.parse import Parser
 
@@ -149,15 +161,18 @@ def run_real(msgs, sync=True):
     steps = []
     failed = False
     states = run_real.states = [p]
+    fsteps = run_real.fsteps = []
     for m in msgs:
         try:
             done, p2 = p.add(to_dict(m))
         except Exception as e:  # noqa
             steps.append({"err": ERRMAP.get(type(e).__name__, "other:" + type(e).__name__)})
+            fsteps.append(steps[-1])
             failed = True
             break
         p = p2
         steps.append({"y": [dump_task(t, sync) for t in done], "i": {u: dump_task(t, sync) for u, t in p._tasks.items()}})
+        fsteps.append({"y": [flat_dump(t) for t in done], "i": {u: flat_dump(t) for u, t in p._tasks.items()}})
         states.append(p)
         if isinstance(done, list):
             # what `add` hands back is the caller's to keep and to change (an accumulator, say): that must not come back later
@@ -326,6 +341,7 @@ def run(ctx):
     model = lean_driver("Driver/C09.lean", [{"msgs": c["msgs"]} for c in cases])
     finals = {}
     ood = 0
+    flat_traces = 0
     for c, mo in zip(cases, model):
         wf = c["kind"] == "wf"
         steps, parser = run_real(c["msgs"], sync=wf)
@@ -358,6 +374,30 @@ def run(ctx):
                            dict(msgs=c["msgs"][: i + 1], real=rs[i] if i < len(rs) else None, model=ms_[i] if i < len(ms_) else None))
         else:
             ctx.traces += 1
+        # the code-shaped flat model (Model/ParseFlat.lean) follows the real `_nodes` / `_completed` entry by entry on EVERY
+        # stream, malformed ones included (it is the same algorithm); an error must come at the same step (the three parser
+        # exceptions by name, anything else - AttributeError on a WrittenMessage, KeyError - as "some error")
+        fr, fm = run_real.fsteps, norm_model(mo.get("fsteps", []))
+        fdiff = None
+        for k in range(max(len(fr), len(fm))):
+            a = fr[k] if k < len(fr) else None
+            b = fm[k] if k < len(fm) else None
+            if a is None or b is None:
+                fdiff = k
+                break
+            if "err" in a or "err" in b:
+                if not ("err" in a and "err" in b) or (a["err"] in ERRMAP.values() and a["err"] != b["err"]):
+                    fdiff = k
+                break
+            if a != b:
+                fdiff = k
+                break
+        if fdiff is not None:
+            ctx.broken_tie("correspondence:parser-flat-model", "real Task._nodes/_completed and the flat-map model differ at step %d" % fdiff,
+                           dict(msgs=c["msgs"][: fdiff + 1], real=fr[fdiff] if fdiff < len(fr) else None, model=fm[fdiff] if fdiff < len(fm) else None))
+        else:
+            flat_traces += 1
+            ctx.count("flat_adds", n=len(fr))
         if wf:
             p = oracle_wf(ctx, c, steps, parser)
             if p is not None:
@@ -371,6 +411,9 @@ def run(ctx):
                     if prev[0] != cur or prev[1] != done:
                         ctx.violation("final parser result depends on arrival order", dict(first=prev[2]["msgs"], second=c["msgs"], spec=c["spec"]))
     ctx.count("out_of_domain", n=ood)
+    if "correspondence:parser-flat-model" not in ctx.broken:
+        ctx.obligation("correspondence:parser-flat-model", "correspondence", True,
+                       "%d histories (well-formed and malformed) compared entry by entry with Task._nodes/_completed" % flat_traces)
     ctx.obligation("correspondence:parser-model", "correspondence",
                    "correspondence:parser-model" not in ctx.broken, "%d histories compared step by step" % ctx.traces) \
         if "correspondence:parser-model" not in ctx.broken else None
